@@ -279,6 +279,10 @@ class ParallelogramBoundary(BoundaryDomain):
         self._add_local_normal_vector(
             normals, bary_x, bary_y, normal_dir_1, normal_dir_2, 1.0
         )
+        # the directions above point outwards if the corners are ordered counter
+        # clockwise, for clockwise ordering (negative determinant) flip them
+        det = dir_1[:, :1] * dir_2[:, 1:] - dir_1[:, 1:] * dir_2[:, :1]
+        normals = normals * torch.sign(det)
         # scale normal vectors if there where in a corner:
         return torch.divide(normals, torch.linalg.norm(normals, dim=1).reshape(-1, 1))
 
